@@ -269,15 +269,24 @@ func Concrete(m Member, tag string) (string, map[string]any) {
 		meth = "h"
 	}
 	id := ""
-	if m.ID != 0 {
+	if m.ID >= 100 { // ids from 100 up are STRING ids: 101 is "1" - not the same id as the number 1
+		id = strconv.Quote(strconv.Itoa(m.ID - 100))
+	} else if m.ID != 0 {
 		id = strconv.Itoa(m.ID)
 	}
 	abs := map[string]any{"tag": tag, "k": m.K, "id": id, "m": m.M, "notey": m.Notey, "echo": id}
 	params := fmt.Sprintf(`{"tag":%q}`, tag)
 	var txt string
 	switch m.K {
-	case "call":
-		txt = fmt.Sprintf(`{"jsonrpc":"2.0","id":%s,"method":%q,"params":%s}`, id, meth, params)
+	case "call": // three spellings of the same request: plain; members reordered with insignificant whitespace; names escaped
+		switch m.Var % 3 {
+		case 1:
+			txt = fmt.Sprintf("{ \"params\" : %s ,\r\n\t\"method\" : %q , \"id\" : %s , \"jsonrpc\" : \"2.0\" }", params, meth, id)
+		case 2:
+			txt = fmt.Sprintf(`{"jsonrpc":"2\u002e0","\u0069d":%s,"m\u0065thod":%q,"par\u0061ms":%s}`, id, meth, params)
+		default:
+			txt = fmt.Sprintf(`{"jsonrpc":"2.0","id":%s,"method":%q,"params":%s}`, id, meth, params)
+		}
 	case "note":
 		if m.Var%2 == 1 {
 			txt = fmt.Sprintf(`{"jsonrpc":"2.0","id":null,"method":%q,"params":%s}`, meth, params)
